@@ -269,7 +269,11 @@ impl<R: Reader> RangeLists<R> {
         let input = &mut self.debug_rnglists.section.clone();
         input.skip(base.0)?;
         input.skip(R::Offset::from_u64(
-            index.0.into_u64() * u64::from(format.word_size()),
+            index
+                .0
+                .into_u64()
+                .checked_mul(u64::from(format.word_size()))
+                .ok_or(Error::UnsupportedOffset)?,
         )?)?;
         input
             .read_offset(format)
